@@ -614,7 +614,7 @@ class C15(PropertyCheck):
             if t % 3 == 0:
                 cases.append({"kind": "tab", "op": "testec", "shape": sh})
         # the remaining public pieces of rft.py: ball / sphere search regions, scale space, one-sided F, the refusals
-        for _ in range(12 if quick else 120):
+        for _ in range(40 if quick else 400):
             cases.append({"kind": "rftmisc", "n": rng.choice([1, 2, 3, 4, 5]), "r": rng.choice([0.5, 1.0, 2.0, 3.5]),
                           "vol": rng.choice([1.0, 8.0, 100.0, 0.125]), "dfn": rng.choice([2, 3, 4, 6]),
                           "dfd": rng.choice(["inf", 5, 12, 40.5]), "x": rng.choice([0.5, 1.0, 2.5, 4.0, 9.0]),
@@ -1091,6 +1091,36 @@ class C15(PropertyCheck):
                 fail = f"OneSidedF(dfn={c['dfn']}, dfd={c['dfd']}).density({c['x']}, {c['dim']}) = {v}"
             if fail is None and not np.allclose(osf.mu, rft.spherical_search(c["dfn"]).mu):
                 fail = "OneSidedF.__call__ does not restore its intrinsic volumes"
+            # what the one-sided F density denotes: half the difference of the cone densities over the spheres
+            # S^{dfn-1} and S^{dfn-2} (each on a FRESH cone), and in dimension 0 half the difference of two F tails
+            from scipy import stats as _st
+            dfn_, x_, dim_ = c["dfn"], float(c["x"]), c["dim"]
+            want = 0.5 * (float(rft.ECcone(mu=rft.spherical_search(dfn_).mu, dfd=dfd).density(math.sqrt(x_ * dfn_), dim_))
+                          - float(rft.ECcone(mu=rft.spherical_search(dfn_ - 1).mu, dfd=dfd)
+                                  .density(math.sqrt(x_ * (dfn_ - 1)), dim_)))
+            for rep in range(2):        # the same object evaluated again answers the same
+                v = float(osf.density(x_, dim_))
+                if fail is None and abs(v - want) > 1e-9 * max(abs(want), abs(v)) + 1e-13:
+                    fail = (f"OneSidedF(dfn={dfn_}, dfd={c['dfd']}).density({x_}, {dim_}) = {v!r} (evaluation {rep + 2} of "
+                            f"the object); half the difference of the two sphere-cone densities is {want!r}")
+            if fail is None:
+                sf = (lambda t, m: _st.chi2.sf(t * m, m)) if not np.isfinite(dfd) else (lambda t, m: _st.f.sf(t, m, dfd))
+                tail = 0.5 * (sf(x_, dfn_) - sf(x_, dfn_ - 1))
+                v0 = float(osf.density(x_, 0))
+                if abs(v0 - tail) > 1e-8 * max(abs(tail), abs(v0)) + 1e-12:
+                    fail = (f"OneSidedF(dfn={dfn_}, dfd={c['dfd']}).density({x_}, 0) = {v0!r}, but "
+                            f"(P(F_{{{dfn_},dfd}} > x) - P(F_{{{dfn_ - 1},dfd}} > x)) / 2 = {tail!r}")
+            # a cone is a function of its current intrinsic volumes: after they are replaced (as OneSidedF does on
+            # itself) an object that has been evaluated before answers like a fresh one
+            if fail is None:
+                cone = rft.ECcone(mu=rft.spherical_search(dfn_).mu, dfd=dfd)
+                cone.density(math.sqrt(x_), dim_)
+                rft.IntrinsicVolumes.__init__(cone, rft.spherical_search(n))
+                got = float(cone.density(math.sqrt(x_), dim_))
+                ref = float(rft.ECcone(mu=rft.spherical_search(n).mu, dfd=dfd).density(math.sqrt(x_), dim_))
+                if abs(got - ref) > 1e-10 * max(abs(ref), abs(got)) + 1e-14:
+                    fail = (f"ECcone over S^{dfn_ - 1} evaluated, then given the intrinsic volumes of S^{n - 1}: "
+                            f"density({math.sqrt(x_)}, {dim_}) = {got!r}, a fresh cone over S^{n - 1} gives {ref!r}")
             for what, f in (("ECcone.integ", lambda: rft.Gaussian().integ()),
                             ("ECquasi.__div__", lambda: rft.ECquasi([1]).__div__(2))):
                 try:
